@@ -726,6 +726,33 @@ def run(ctx, idx):
     from .C20 import accepts_domain
 
     accepts_domain(ctx, idx, "C01.l", only={"DataParameter"}, consequence="; ResultParameter.clean applies it to finished producers only, so a producer's first consumer is served and the second (or any consumer on a second run()) gets ParameterNotValid for the same result")
+    # a command OBJECT given as an argument value (API use) is that object: what the consumer is fed is its finished result.  Replaced
+    # by its result name while the argument is stored, it is looked up again at run time in the CONSUMING program - another command of
+    # that name there is fed instead, and the object given never runs
+    ctx.rule("C01.o", "A command object given as an argument value stays that object: nothing on the way from Program.add_command to the stored Argument replaces it by its `result_name` (the name is resolved again, at run time, in the consuming program: a different command of the same name is fed instead of the one that was given).")
+    ac_ = A.program.methods.get("add_command")
+    if ac_ is None:
+        raise AnalysisError("C01.o: Program.add_command vanished")
+    fns_o = [ac_] + [f_ for f_ in K.helper_closure(idx, ac_) if f_ is not ac_ and f_.module is ac_.module]
+    called_o = {c_.func.attr for g_ in fns_o for c_ in ast.walk(getattr(g_, "node_orig", None) or g_.node) if isinstance(c_, ast.Call) and isinstance(c_.func, ast.Attribute)}
+    for f_ in idx.funcs:
+        if getattr(f_, "cls", None) is A.program and f_.name in called_o and f_ not in fns_o and (getattr(f_, "absorbed", False) or f_.name.startswith("_")):
+            fns_o.append(f_)
+    bad_o = None
+    for f_ in fns_o:
+        src_o = getattr(f_, "node_orig", None) or f_.node
+        tested = {K.src(t_.args[0]) for t_ in ast.walk(src_o) if isinstance(t_, ast.Call) and K.src(t_.func) == "isinstance" and len(t_.args) == 2 and "Command" in K.src(t_.args[1])}
+        for x_ in ast.walk(src_o):
+            e_ = x_.value if isinstance(x_, ast.Return) else None
+            if isinstance(x_, ast.Call) and K.src(x_.func).split(".")[-1] in ("Argument", "ListArgument"):
+                for a_ in list(x_.args) + [k_.value for k_ in x_.keywords]:
+                    if isinstance(a_, ast.Attribute) and a_.attr == "result_name" and K.src(a_.value) in tested:
+                        e_ = a_
+            if isinstance(e_, ast.Attribute) and e_.attr == "result_name" and K.src(e_.value) in tested and bad_o is None:
+                bad_o = (f_, e_)
+    ctx.ob("C01.o", "%s::command-objects-kept" % ac_.key, K.rel(ac_), bad_o[1].lineno if bad_o else ac_.node.lineno, bad_o is None,
+           "argument values are stored as given" if bad_o is None else
+           "`%s` in %s puts the NAME of a command object in the place of the object while the argument is stored: at run time the name is looked up in the consuming program, so a command of the same name there is fed to the consumer instead of the one that was given - which never runs" % (K.src(bad_o[1]), bad_o[0].qualname))
     ctx.rule("C01.n", "Every command of an acyclic model is executed: no walk of the reference graph in Program.run reports a result reached along two chains as a loop (C02.k's reading - a `visited` collection that is never unwound refuses every diamond, and no command runs at all).")
     from .coverage import false_cycle_reports
 
